@@ -59,30 +59,35 @@ pub fn ledger_snapshot() -> HashMap<u64, u32> {
 pub const BAND_LO: usize = 3001;
 pub const BAND_HI: usize = 3400;
 pub static BAND_LIVE: AtomicI64 = AtomicI64::new(0);
+/// odd sizes only: vectors of 8/16/32-byte elements and doubling byte buffers never have them
+#[inline]
+fn in_band(size: usize) -> bool {
+    size >= BAND_LO && size <= BAND_HI && size % 2 == 1
+}
 
 pub struct Counting;
 unsafe impl GlobalAlloc for Counting {
     unsafe fn alloc(&self, l: Layout) -> *mut u8 {
-        if l.size() >= BAND_LO && l.size() <= BAND_HI {
+        if in_band(l.size()) {
             BAND_LIVE.fetch_add(1, Ordering::Relaxed);
         }
         System.alloc(l)
     }
     unsafe fn dealloc(&self, p: *mut u8, l: Layout) {
-        if l.size() >= BAND_LO && l.size() <= BAND_HI {
+        if in_band(l.size()) {
             BAND_LIVE.fetch_sub(1, Ordering::Relaxed);
         }
         System.dealloc(p, l)
     }
     unsafe fn alloc_zeroed(&self, l: Layout) -> *mut u8 {
-        if l.size() >= BAND_LO && l.size() <= BAND_HI {
+        if in_band(l.size()) {
             BAND_LIVE.fetch_add(1, Ordering::Relaxed);
         }
         System.alloc_zeroed(l)
     }
     unsafe fn realloc(&self, p: *mut u8, l: Layout, new: usize) -> *mut u8 {
-        let was = l.size() >= BAND_LO && l.size() <= BAND_HI;
-        let is = new >= BAND_LO && new <= BAND_HI;
+        let was = in_band(l.size());
+        let is = in_band(new);
         if was && !is {
             BAND_LIVE.fetch_sub(1, Ordering::Relaxed);
         } else if !was && is {
@@ -94,7 +99,7 @@ unsafe impl GlobalAlloc for Counting {
 
 /// a column text whose heap block falls into the band (ASCII => Box<str> of exactly `len` bytes)
 pub fn band_text(sel: u16) -> String {
-    let len = BAND_LO + 7 + (sel as usize % 300);
+    let len = BAND_LO + 6 + 2 * (sel as usize % 150);
     let mut s = String::with_capacity(len);
     for i in 0..len {
         s.push((b'a' + ((i + sel as usize) % 3) as u8) as char);
